@@ -94,6 +94,11 @@ class SpyRunner(Runner):
         return self.inner.close()
 
     def pending_task_count(self):
+        # a coordinator that keeps asking without ever consuming wait() spins just as well
+        self.count_calls = getattr(self, 'count_calls', 0) + 1
+        if self.count_calls > 50 * self.horizon + 1000:
+            self.ev.append(('horizon', 'pending_task_count'))
+            raise Spin()
         return self.inner.pending_task_count()
 
     def get_result(self, task):
